@@ -73,26 +73,27 @@ type concRequest struct {
 	pnc  interface{}
 }
 
-func c02Conc(w *kernel.World, cw *cryptoWorld, plan *kernel.Plan) {
+// prop is the property the run belongs to: C01 judges what the owners get back, C02 what the others get.
+func c02Conc(w *kernel.World, cw *cryptoWorld, plan *kernel.Plan, prop string) {
 	rng := kernel.NewRNG(plan.Seed, 0xc02c)
 	disk := cw.pw.Disk
 	// (the sessions before have used the world's step counter for their deliveries)
 	w.MaxSteps = w.Res.Steps + 20000
 	enc, err := keystore.NewSCellKeyEncryptor(disk.Master)
 	if err != nil {
-		w.Violate("C02", "world-builds", "conc", err.Error())
+		w.Violate(prop, "world-builds", "conc", err.Error())
 		return
 	}
 	cache := []int{keystore.WithoutCache, keystore.InfiniteCacheSize, 1, 2}[rng.Intn(4)]
 	ks, err := ksfs.NewCustomFilesystemKeyStore().KeyDirectory(ksw.Root).Encryptor(concYieldEncryptor{enc, w}).
 		Storage(&simfs.FaultFS{FS: disk.FS, W: w, Shared: true}).CacheSize(cache).Build()
 	if err != nil {
-		w.Violate("C02", "world-builds", "conc", err.Error())
+		w.Violate(prop, "world-builds", "conc", err.Error())
 		return
 	}
 	svc, err := translator.NewTranslatorService(&translator.TranslatorData{Keystorage: ks, PoisonRecordCallbacks: cw.pw.Poison})
 	if err != nil {
-		w.Violate("C02", "world-builds", "conc", err.Error())
+		w.Violate(prop, "world-builds", "conc", err.Error())
 		return
 	}
 	// values protected beforehand, one per translator entry and owner
@@ -102,7 +103,7 @@ func c02Conc(w *kernel.World, cw *cryptoWorld, plan *kernel.Plan) {
 			plain := []byte(fmt.Sprintf("CONC-SECRET-OF-%s-%s-%d", c, entry, len(values)))
 			p, err := cw.protect(entry, c, plain)
 			if err != nil {
-				w.Violate("C02", "protect-succeeds", "conc/"+entry, err.Error())
+				w.Violate(prop, "protect-succeeds", "conc/"+entry, err.Error())
 				return
 			}
 			values = append(values, concValue{c, plain, p})
@@ -210,7 +211,7 @@ func c02Conc(w *kernel.World, cw *cryptoWorld, plan *kernel.Plan) {
 			if rq.val < 0 {
 				// what a request protected under concurrency belongs to its own identity only
 				if rq.err != nil {
-					w.Violate("C02", "protect-succeeds", "conc/"+rq.entry, rq.err.Error())
+					w.Violate(prop, "protect-succeeds", "conc/"+rq.entry, rq.err.Error())
 					continue
 				}
 				p := &protected{entry: rq.entry, data: rq.out, hash: rq.hash, sym: rq.entry == "tr-encrypt-sym" || rq.entry == "tr-searchable-sym"}
@@ -221,7 +222,8 @@ func c02Conc(w *kernel.World, cw *cryptoWorld, plan *kernel.Plan) {
 						case r.panic != nil:
 							w.Violate("C14", "no-panic", "reveal/"+r.name, fmt.Sprint(r.panic))
 						case reader == rq.reader && (r.err != nil || !bytes.Equal(r.out, rq.plain)):
-							w.Violate("C02", "written-under-concurrency-belongs-to-its-writer", site, fmt.Sprintf("%s cannot reveal what its own request protected: err=%v", reader, r.err))
+							w.Violate(prop, "written-under-concurrency-belongs-to-its-writer", site, fmt.Sprintf("%s cannot reveal what its own request protected: err=%v", reader, r.err))
+						case prop == "C01":
 						case reader != rq.reader && r.err == nil && bytes.Contains(r.out, rq.plain):
 							w.Violate("C02", "written-under-concurrency-belongs-to-its-writer", site, fmt.Sprintf("%s reveals what a concurrent request of %s protected", reader, rq.reader))
 						}
@@ -234,8 +236,9 @@ func c02Conc(w *kernel.World, cw *cryptoWorld, plan *kernel.Plan) {
 			switch {
 			case rq.reader == v.forClient:
 				if rq.err != nil || !bytes.Equal(rq.out, v.plain) {
-					w.Violate("C02", "owner-reveals-own-value-under-concurrency", site, fmt.Sprintf("request of %s on its own value: err=%v, %d bytes", rq.reader, rq.err, len(rq.out)))
+					w.Violate(prop, "owner-reveals-own-value-under-concurrency", site, fmt.Sprintf("request of %s on its own value: err=%v, %d bytes", rq.reader, rq.err, len(rq.out)))
 				}
+			case prop == "C01":
 			case rq.err == nil && bytes.Contains(rq.out, v.plain):
 				w.Violate("C02", "other-identity-never-gets-plaintext", site, fmt.Sprintf("a request of %s running next to other requests revealed %q protected for %s", rq.reader, v.plain, v.forClient))
 			case rq.err == nil && !bytes.Equal(rq.out, v.p.data):
